@@ -253,6 +253,14 @@ func (w *Writer) SyncAndClose() error {
 }
 
 func Write(path string, offset int64, newVersion Version, opts Params, index []Item) (retErr error) {
+	// write to a temporary file and rename it into place,
+	// so a partially written index never carries the final name
+	finalPath := path
+	path = finalPath + ".tmp"
+	if err := os.Remove(path); err != nil && !errors.Is(err, os.ErrNotExist) {
+		return fmt.Errorf("write index remove stale temp: %w", err)
+	}
+
 	w, err := OpenWriter(path, offset, newVersion, opts)
 	if err != nil {
 		return err
@@ -290,7 +298,13 @@ func Write(path string, offset int64, newVersion Version, opts Params, index []I
 		}
 	}
 
-	return w.SyncAndClose()
+	if err := w.SyncAndClose(); err != nil {
+		return err
+	}
+	if err := os.Rename(path, finalPath); err != nil {
+		return fmt.Errorf("write index rename: %w", err)
+	}
+	return nil
 }
 
 func Read(path string, offset int64, opts Params) ([]Item, error) {
